@@ -405,7 +405,6 @@ impl LogInnerManager {
         }
         let (index_dto, file_index_len, pop_index_count) =
             self.get_file_index_by_log_index(end_index)?;
-        let empty_data = vec![0u8, 1];
         if pop_index_count > 0 {
             for _i in 0..pop_index_count {
                 self.indexs.pop();
@@ -436,12 +435,9 @@ impl LogInnerManager {
         self.data_file
             .seek(SeekFrom::Start(self.data_cursor))
             .await?;
-        self.data_file.write_all(&empty_data).await?;
-        self.data_file
-            .seek(SeekFrom::Start(self.data_cursor))
-            .await?;
-        self.data_file.flush().await?;
-        //shrink then grow back: every byte from data_cursor on reads as zero again
+        //shrink then grow back: every byte from data_cursor on reads as zero again (the end
+        //marker). No marker is written first: a kill between a marker write and the shrink left
+        //the removed records behind the marker, and the next append made them readable again.
         self.data_file.set_len(self.data_cursor).await?;
         self.data_file.set_len(self.file_len).await?;
         Ok(())
